@@ -486,7 +486,11 @@ class Exec:
                 self.memo[('dereft', r.id)] = inner
             name = self.memo[mk]
             if name not in st.frames[0]:
-                st.frames[0][name] = self.fresh(self.memo[('dereft', r.id)], f'deref{r.id}', st)
+                # the referent is created once (stable identity across paths); writes through the cell stay per-state
+                vk = ('derefv', r.id)
+                if vk not in self.memo:
+                    self.memo[vk] = self.fresh(self.memo[('dereft', r.id)], f'deref{r.id}', st)
+                st.frames[0][name] = self.memo[vk]
             return st.frames[0][name]
         raise NotEncoded(f'deref of {r!r}')
 
